@@ -20,7 +20,7 @@ EXTENDS Integers, Sequences, FiniteSets, TLC, Json
 CONSTANTS Accts,      \* account ids, e.g. {1, 2}
           Vals,       \* validator ids, e.g. {1}
           MaxOps,     \* bound on the behaviour length
-          Rich,       \* TRUE: full alphabet (generation); FALSE: reduced alphabet (exhaustive M)
+          Rich,       \* alphabet: "reduced" (exhaustive M, G1), "deleg" (validators + delegations, G1), "rich" (simulation)
           ClearValRevs, \* TRUE = Finalise also resets the validator revision list (repaired code)
           GenMode     \* "none" | "leaf" : print hist at leaves
 
@@ -244,7 +244,14 @@ NextRich ==
    \/ Snapshot \/ Finalise
    \/ \E id \in 0..MaxOps : Revert(id)
 
-Next == IF Rich THEN NextRich ELSE NextReduced
+\* second small alphabet: the validator record with its delegation list (the journalled old/new records share structure)
+NextDeleg ==
+   \/ \E v \in Vals : CreateValidator(v, 2) \/ UpdateValidator(v, 1, FALSE)
+   \/ \E a \in Accts, v \in Vals, d \in {-1, 1, 2} : UpdateDelegation(a, v, d)
+   \/ Snapshot \/ Finalise
+   \/ \E id \in 0..MaxOps : Revert(id)
+
+Next == CASE Rich = "rich" -> NextRich [] Rich = "deleg" -> NextDeleg [] OTHER -> NextReduced
 Spec == Init /\ [][Next]_vars
 
 \* ---------------------------------------------------------------- property layer
